@@ -440,6 +440,29 @@ def run_routine(ctx, case):
                 Db = np.asarray(Qb.to_dense())
                 for j in range(Db.shape[0]):
                     judge_output(ctx, "lanczos.Q[batched]", Qb, {"breakdown": j == 0}, dense=Db[j])
+            if (rng.random() < 0.4 or case.get("force_breakdown")) and n >= 3:
+                # unbatched early termination with a budget of at least n steps: the Krylov space is exhausted after d < n steps
+                # (d distinct eigenvalues, or a start vector inside a d-dimensional invariant subspace), so the returned basis is
+                # n x d (or n x (d+1)): orthonormal columns, not a square unitary matrix
+                d = int(rng.integers(1, n - 1)) if n > 3 else 1
+                if rng.random() < 0.5:
+                    vals = [float(x) for x in np.linspace(-1.0, 2.0, d + 1)[:d] + 0.5]
+                    eigs = [vals[i % d] for i in range(n)]
+                    A2 = cola.SelfAdjoint(B.build({"k": "Dense", "shape": [n, n], "dt": dt, "seed": S.seed(rng), "gen": "herm", "eigs": eigs}))
+                    v2 = np.asarray(v)
+                    how = "few-distinct-eigenvalues"
+                else:
+                    A2 = A
+                    w_, E_ = np.linalg.eigh(np.asarray(A.to_dense()))
+                    cols = rng.choice(n, size=d, replace=False)
+                    v2 = (E_[:, cols] @ (1.0 + rng.random(d))).astype(np.asarray(v).dtype if np.iscomplexobj(v) else E_.dtype)
+                    how = "start-in-invariant-subspace"
+                budget = S.pick(rng, [n, n + 1, 100, None])
+                kw = {} if budget is None else {"max_iters": int(budget)}
+                Q2, T2, _ = lanczos(A2, v2, tol=float(S.pick(rng, [1e-7, 1e-9])), **kw)
+                ctx.count("lanczos_early_stop", f"{how}:cols{'<' if Q2.shape[1] < n else '='}n")
+                judge_output(ctx, "lanczos.Q[early-stop]", Q2, {"short": Q2.shape[1] < n})
+                judge_output(ctx, "lanczos.T[early-stop]", T2, {})
         elif r == "arnoldi":
             A = B.build({"k": "Dense", "shape": [n, n], "dt": dt, "seed": S.seed(rng), "gen": "normal"})
             k = int(rng.integers(1, n))  # m < n: m+1 <= n orthonormal columns exist
